@@ -1125,7 +1125,24 @@ def _generate_deltas(repository, log_rev_iterator, delta_type, files, direction)
             for rev, delta in zip(revs, deltas, strict=False):
                 new_revs.append((rev[0], rev[1], delta))
         else:
-            deltas = repository.get_revision_deltas(revisions, specific_files=file_set)
+            if check_files and direction == "forward":
+                # get_revision_deltas() re-maps specific_files towards the
+                # parents after each revision, which is only right when the
+                # revisions come newest first.
+                deltas = [
+                    next(
+                        iter(
+                            repository.get_revision_deltas(
+                                [revision], specific_files=file_set
+                            )
+                        )
+                    )
+                    for revision in revisions
+                ]
+            else:
+                deltas = repository.get_revision_deltas(
+                    revisions, specific_files=file_set
+                )
             for rev, delta in zip(revs, deltas, strict=False):
                 if check_files:
                     if delta is None or not delta.has_changed():
@@ -1168,7 +1185,7 @@ def _update_files(delta, files, stop_on):
                     if is_inside(item.path[1], path):
                         files.remove(path)
                         files.add(item.path[0] + path[len(item.path[1]) :])
-    elif stop_on == "delete":
+    elif stop_on == "remove":
         for item in delta.removed:
             if item.path[0] in files:
                 files.remove(item.path[0])
